@@ -38,6 +38,9 @@ class SArr(Model):
     dtype: 'float' | 'int' | 'bool'."""
     pytype = 'ndarray'
 
+    def __iter__(self):
+        raise TypeError('symbolic sequence is not iterable natively')
+
     def __init__(self, n, at, dtype):
         self.n = lift(n)
         self.at = at
